@@ -9,6 +9,7 @@ import (
 	"runtime"
 	"strings"
 	"sync"
+	"sync/atomic"
 	"testing"
 	"testing/synctest"
 	"time"
@@ -23,6 +24,12 @@ func runBubble(t *testing.T, f func()) (leak string) {
 	defer func() {
 		if r := recover(); r != nil {
 			leak = fmt.Sprint(r)
+			// name what is left: the blocked goroutines with library frames
+			for i, g := range libGoroutines() {
+				if i < 3 {
+					leak += "\n--- left behind [" + g.State + "] in " + topLibFrame(g.Stack) + "\n" + g.Stack
+				}
+			}
 		}
 	}()
 	synctest.Test(t, func(t *testing.T) { f() })
@@ -40,22 +47,37 @@ func runBubble(t *testing.T, f func()) (leak string) {
 // torn down.
 func runBubbleWD(t *testing.T, rec *ev.Rec, c *ev.Case, wd time.Duration, f func()) (leak string) {
 	done := make(chan string, 1)
-	go func() { done <- runBubble(t, f) }()
+	var finished atomic.Bool
+	go func() {
+		done <- runBubble(t, func() {
+			f()
+			finished.Store(true)
+		})
+	}()
 	select {
 	case l := <-done:
 		return l
 	case <-time.After(wd):
 	}
+	gs := libGoroutines()
 	var lockers []string
-	for _, g := range libGoroutines() {
+	for _, g := range gs {
 		if strings.Contains(g.Stack, "sync.(*Mutex).Lock") || strings.Contains(g.Stack, "sync.(*RWMutex).Lock") || strings.Contains(g.Stack, "sync.(*RWMutex).RLock") {
 			lockers = append(lockers, g.Stack)
 		}
 	}
-	if len(lockers) > 0 {
+	switch {
+	case c.Failed():
+		// the scenario already reported a violation; the bubble just cannot end
+	case len(lockers) > 0:
 		c.Fail(ev.Sig{"op": "blocked-on-library-lock", "frame": topLibFrame(lockers[0])}, nil, nil,
 			"the scenario did not become quiescent within %v of real time: %d goroutine(s) are waiting for a lock inside the library while everything else is idle, e.g.\n%s", wd, len(lockers), lockers[0])
-	} else {
+	case finished.Load() && len(gs) > 0:
+		// the scenario is over, but a library goroutine keeps running on timers,
+		// so the bubble (whose clock it drives forward for ever) can never end
+		c.Fail(ev.Sig{"op": "goroutine-left", "how": "runs-for-ever", "frame": topLibFrame(gs[0].Stack)}, nil, nil,
+			"the scenario ended but %d library goroutine(s) keep running for ever (virtual time advanced without bound for %v of real time), e.g. in %s:\n%s", len(gs), wd, topLibFrame(gs[0].Stack), gs[0].Stack)
+	default:
 		c.Fail(ev.Sig{"op": "watchdog"}, nil, nil, "the scenario did not become quiescent within %v of real time", wd)
 	}
 	rec.Close()
